@@ -109,10 +109,10 @@ func GetMatchingTables(ctx *sql.Context, root RootValue, schemaName string, patt
 func getMoreSpecificPatterns(lessSpecific string) (*regexp.Regexp, error) {
 	pattern := "^" + regexp.QuoteMeta(lessSpecific) + "$"
 	// A ? can expand to any character except for a * or %, since that also has special meaning in patterns.
-
-	pattern = strings.Replace(pattern, "\\?", "[^\\*%]", -1)
+	// Expand the ? last: its character class mentions * and %, which the replacements above must not rewrite.
 	pattern = strings.Replace(pattern, "\\*", ".*", -1)
 	pattern = strings.Replace(pattern, "%", ".*", -1)
+	pattern = strings.Replace(pattern, "\\?", "[^\\*%]", -1)
 	return regexp.Compile(pattern)
 }
 
